@@ -1,4 +1,5 @@
-/* Reproducer for UNCHANGED_DEFECT.md (half rate, end of stream).
+/* Reproducer for finding F44 (half rate, end of an odd-length stream: ov_halfrate(vf,0) fails with OV_EINVAL and loses the position).
+ * Written by the batch j mutation agent for C08; the two checks that contradicted C20's own wording were relaxed.
  * Exit 0 = behaves as the seek contract says, 1 = defect observed. */
 #include <stdio.h>
 #include <stdlib.h>
@@ -94,10 +95,12 @@ static int run(long nsamples){
   if(ov_halfrate(&vf,1))return 91;
   r=ov_pcm_seek(&vf,L); at=ov_pcm_tell(&vf);
   printf(" half rate: ov_pcm_seek(L)=%d, ov_pcm_tell=L%+ld\n",r,(long)(at-L));
-  if(r||at!=L)bad=1;
+  /* C20: a half-rate seek lands on the even position at or below the target -- L-1 for odd L is as specified */
+  if(r||at>L||at<L-1)bad=1;
   n=ov_read_float(&vf,&pcm,1000,&sec); at=ov_pcm_tell(&vf);
   printf(" next read returned %ld (EOF expected), ov_pcm_tell=L%+ld\n",n,(long)(at-L));
-  if(n!=0||at>L)bad=1;
+  /* C20: the position advances by two per sample returned, so L+1 after the last sample of an odd-length stream is as specified */
+  if(n>1||at>L+1)bad=1;
   r=ov_halfrate(&vf,0); at=ov_pcm_tell(&vf);
   printf(" ov_halfrate(0)=%d, ov_pcm_tell=%ld\n",r,(long)at);
   if(r||at<0)bad=1;
